@@ -27,10 +27,12 @@ def root_deleted_inotify():
     threading.excepthook = lambda a: errs.append(repr(a.exc_value))
     out = []
     try:
-        for recursive in (False, True):
+        # the watch path as the user spelled it (canonical, trailing separator, doubled separator, '.' component, bytes)
+        spell = [lambda b: os.path.join(b, "root"), lambda b: os.path.join(b, "root", ""), lambda b: b + "//root", lambda b: os.path.join(b, ".", "root"), lambda b: os.fsencode(os.path.join(b, "root"))]
+        for recursive, sp in [(r, f) for r in (False, True) for f in spell]:
             base = tempfile.mkdtemp(prefix="c07r")
-            root = os.path.join(base, "root")
-            os.makedirs(os.path.join(root, "sub"))
+            os.makedirs(os.path.join(base, "root", "sub"))
+            root = sp(base)
             got = []
 
             class H(FileSystemEventHandler):
@@ -40,14 +42,14 @@ def root_deleted_inotify():
             o.schedule(H(), root, recursive=recursive)
             o.start()
             em = next(iter(o.emitters))
-            shutil.rmtree(root)
+            shutil.rmtree(os.path.join(base, "root"))
             em.join(3)
             time.sleep(0.2)
             dels = [e for e in got if isinstance(e, DirDeletedEvent) and e.src_path == root]
             if len(dels) != 1:
-                out.append(f"root deleted (recursive={recursive}): {len(dels)} DirDeletedEvent(root) delivered: {got}")
+                out.append(f"root deleted (watch path spelled {root!r}, recursive={recursive}): {len(dels)} DirDeletedEvent(root) delivered: {got[-3:]}")
             if em.is_alive():
-                out.append(f"root deleted (recursive={recursive}): the emitter did not stop")
+                out.append(f"root deleted (watch path spelled {root!r}, recursive={recursive}): the emitter did not stop")
             o.stop()
             o.join(3)
             shutil.rmtree(base, ignore_errors=True)
